@@ -88,6 +88,11 @@ struct Harness<K: Kit> {
 
 fn harness<K: Kit>(sc: &Scenario) -> Harness<K> {
     let rig = Rig::<K>::new(sc, false);
+    if sc.params.pk == Pk::Prm {
+        // a PRM call that draws samples where none were foreseen (a query that builds a roadmap on its own)
+        // ends through the deadline and is judged by what it returns, not stopped as harness trouble
+        rig.space.expire_when_exhausted.set(true);
+    }
     let b = base_of(sc.kit);
     let ak = api_kit(sc.kit);
     let dist = dist_fn::<K>(&sc.spec);
